@@ -37,6 +37,15 @@ def _compiled_power(backend, a, b):
     return eval_dyad_power(a, b, backend)
 
 
+def _compiled_divide(a, b):
+    """a%b in compiled code. The Divide verb answers :undefined for a zero divisor; Python's
+    "/" raises for a Python zero (the caller then falls back to the interpreter) but returns
+    inf/nan for a NumPy scalar zero such as the result of +/a. Raise for that case as well."""
+    if isinstance(b, (np.generic, np.ndarray)) and np.ndim(b) == 0 and np.ndim(a) == 0 and b == 0:
+        raise ZeroDivisionError("division by zero")
+    return a / b
+
+
 class NumpyBackendProvider(BackendProvider):
     """NumPy-based backend provider."""
 
@@ -129,7 +138,8 @@ class NumpyBackendProvider(BackendProvider):
 
         param_names = list(self._collect_params(ir))
         fn_source = f"def _expr({', '.join(param_names)}): return {source}"
-        ns = {'np': np, '_vec': _compiled_vector_operand, '_pow': lambda a, b: _compiled_power(self, a, b)}
+        ns = {'np': np, '_vec': _compiled_vector_operand, '_pow': lambda a, b: _compiled_power(self, a, b),
+              '_div': _compiled_divide}
         try:
             exec(fn_source, ns)
         except Exception:
@@ -154,7 +164,9 @@ class NumpyBackendProvider(BackendProvider):
                 return None
             if op == '^':
                 return f'_pow({l},{r})'
-            py_op = {'+': '+', '-': '-', '*': '*', '%': '/'}.get(op)
+            if op == '%':
+                return f'_div({l},{r})'
+            py_op = {'+': '+', '-': '-', '*': '*'}.get(op)
             if py_op is None:
                 return None
             return f'({l}{py_op}{r})'
